@@ -80,7 +80,10 @@ CHECKS["C01"] = dict(
          "reversibly-encoding transport and the client (cut at the first separator, decoder model) returns the served value for "
          "every declaration and well-formed value - no bound on nesting, ranks or record counts. The plumbing is exercised on the "
          "real code: generated datasets served by BaseHandler and read back by the real client through in-process WSGI, a requests "
-         "session, a cached session and a saved .dods file, plain and gzip; the theorem's separator hypothesis is evaluated on every DDS.",
+         "session, a cached session and a saved .dods file, plain and gzip; the theorem's separator hypothesis is evaluated on every DDS. "
+         "A variable inside a sequence read on its own (an inner sequence): the client's decoder for such reads (unpack_enclosed) "
+         "is proved to read back the encoder's bytes for every declaration, depth and record count, and is run in Coq on the answer "
+         "to a request for every inner sequence of the generated datasets.",
     note=TB + "gzip/requests/requests-cache/webob are exercised, not modelled (the theorem quantifies over any decode.encode = id); "
               "codec models are those validated by C05; DDS print/parse is C07.",
     technique="Coq proof (composition of the C05 codec theorems with a leftmost-separator lemma) + end-to-end differential runs over 7 transport configurations",
@@ -92,7 +95,10 @@ CHECKS["C02"] = dict(
          "axis and parses back on the server to the same slice when non-empty (composition of the C03 laws). The plumbing is run on "
          "the real code: arrays and grids (output_grid on/off) of rank 1-3 served over DAP2 and by an independent reference DAP4 "
          "server, with and without a strided hyperslab in the URL, indexed with every per-axis form, compared with numpy; the "
-         "QUERY_STRING seen by the server is compared with the model's query text.",
+         "QUERY_STRING seen by the server is compared with the model's query text. Maps of a sliced grid: the index branch of "
+         "GridType.__getitem__ is modelled (GridSel.v) and proved to slice every map a grid still lists - all, some, in any order - "
+         "with the item of the axis that bears its name, for every shape and index; the model is run in Coq on narrowed / re-ordered "
+         "local and remote grids.",
     note=TB + "Server-side application of the parsed hyperslab is numpy indexing (exercised, not modelled); slice kernels as in C03.",
     technique="Coq proof (composition of the slice-algebra theorems) + differential runs of the real client against numpy over DAP2 and a reference DAP4 server",
     design="7/C02")
